@@ -945,6 +945,10 @@ def expression_cases(Case):
     for o1 in ops:
         for o2 in ops:
             a, b, c = N(sid=1, kind='any'), N(sid=2, kind='any'), N(sid=3, kind='any')
+            if (o1, o2) == ('^', '/'):
+                # a fractional power of a negative number is a complex number in Python: outside the documented arithmetic
+                out.append(Case(body(R.Bin(o2, R.Bin(o1, a, b), c)), tag='expr-(%s)%s' % (o1, o2), doms=doms))
+                continue
             out.append(Case(body(R.Bin(o1, a, R.Bin(o2, b, c))), tag='expr-%s(%s)' % (o1, o2), doms=doms))
             out.append(Case(body(R.Bin(o2, R.Bin(o1, a, b), c)), tag='expr-(%s)%s' % (o1, o2), doms=doms))
     a, b, c, d = (N(sid=i, kind='any') for i in (1, 2, 3, 4))
